@@ -8,12 +8,13 @@ Each route of the harness is lowered to the bank / hold primitive the Go code re
   ioprov ins T      `InputOutputCoinsProv` (n inputs → 1 output; what the exchange uses)
   delegate D c      staking `Delegate` → `DelegateCoinsFromAccountToModule(bonded pool)` → `DelegateCoins`
   undelegate D c    `UndelegateCoinsFromModuleToAccount(bonded pool)` → `UndelegateCoins`
-  burn POOL c       `BurnCoins(bonded pool)`
-  deposit D c       gov `Deposit` → `SendCoinsFromAccountToModule(gov)` → `SendCoins`
-  mwithdraw T c     marker.go:169 `WithdrawCoins` → `SendCoins(WithBypass(ctx), markerAddr, T, c)`
-  mtransfer F T c   marker.go:624 `TransferCoin` (forced) → `SendCoins(WithBypass(ctx), F, T, c)`
-  mktwithdraw T c   exchange market.go:1542 `WithdrawMarketFunds` → `SendCoins(xferCtx, marketAddr, T, c)`
-  qaccept T F       quarantine keeper.go:284 → `SendCoins(quarantine.WithBypass(ctx), fundsHolder, T, record)`
+  burn POOL c       `BurnCoins(bonded pool)` → `moduleBurnOps`
+  deposit D c       gov `Deposit` → `SendCoinsFromAccountToModule(gov)` → `SendCoins` → `govDepositOps`
+  mwithdraw T c     marker.go:169 `WithdrawCoins` → `SendCoins(WithBypass(ctx), markerAddr, T, c)` → `markerWithdrawOps`
+  mtransfer F T c   marker.go:624 `TransferCoin` (forced) → `SendCoins(WithBypass(ctx), F, T, c)` → `markerTransferOps`
+  mktwithdraw T c   exchange market.go:1543 `WithdrawMarketFunds` → `SendCoins(xferCtx, marketAddr, T, c)` → `marketWithdrawOps`
+  qaccept T F       quarantine keeper.go:284 → `SendCoins(quarantine.WithBypass(ctx), fundsHolder, T, record)` → `quarantineAcceptOps`
+                    (the route lowerings are lists of primitives in `PvModel/Lock.lean`, run with `applyAll`)
   hold / release    hold keeper `AddHold` / `ReleaseHold`
   commit / pay      exchange `CommitFunds` / `CreatePayment` → `AddHold` (a further hold)
   pay S c id tgt= tamt=   exchange `CreatePayment` (payment record + `AddHold(source amount)`)
@@ -209,6 +210,13 @@ private def doSend (ds : DState) (c : Ctx) (src dst : Addr) (amt : Coins) (direc
   let recs := if rec then addRecord ds.qrecs dst src amt else ds.qrecs
   finish ds (sendCoins ds.s c src dst amt r) recs
 
+/-- one single-transfer route of another module: its lowering (`PvModel.Lock`, a list of
+primitives) run atomically, including the quarantine record of the transfer -/
+private def doRoute (ds : DState) (qBypass : Bool) (src dst : Addr) (amt : Coins)
+    (lower : Option Addr → List Op) : DState × String :=
+  let (r, rec) := resolve ds qBypass src dst none
+  let recs := if rec then addRecord ds.qrecs dst src amt else ds.qrecs
+  finish ds (applyAll ds.s (lower r)) recs
 
 /-! ### exchange messages -/
 
@@ -526,17 +534,18 @@ def execOp (ds : DState) (ws : List String) : DState × String :=
       | _ => some "POOL"
     finish ds (delegateCoins ds.s {} d "POOL" (coinsArg cs) r)
   | ["undelegate", d, cs] => finish ds (undelegateCoins ds.s {} "POOL" d (coinsArg cs))
-  | ["burn", m, cs] => finish ds (burnCoins ds.s {} m (coinsArg cs))
-  | ["deposit", d, cs] => doSend ds {} d "GOV" (coinsArg cs) none
+  | ["burn", m, cs] => finish ds (applyAll ds.s (moduleBurnOps m (coinsArg cs)))
+  | ["deposit", d, cs] => doRoute ds false d "GOV" (coinsArg cs) (govDepositOps d "GOV" (coinsArg cs))
   | ["mwithdraw", t, cs] =>
     if isBlocked ds.s t then (ds, "err:blocked")
-    else doSend ds { markerBypass := true } "MK" t (coinsArg cs) none
+    else doRoute ds false "MK" t (coinsArg cs) (markerWithdrawOps "MK" t (coinsArg cs))
   | ["mtransfer", f, t, cs] =>
     if isBlocked ds.s t then (ds, "err:blocked")
-    else doSend ds { markerBypass := true } f t (coinsArg cs) none
+    else doRoute ds false f t (coinsArg cs) (markerTransferOps f t (coinsArg cs))
   | ["mktwithdraw", t, cs] =>
     if isBlocked ds.s t then (ds, "err:blocked")
-    else doSend ds { quarantineBypass := decide (t = "ADM") } "MKT" t (coinsArg cs) none
+    else doRoute ds (decide (t = "ADM")) "MKT" t (coinsArg cs)
+      (marketWithdrawOps "MKT" t (coinsArg cs) (decide (t = "ADM")))
   | ["floor", c] =>
     match parseCoin? c with
     | some f => if f.2 < 0 then (ds, "bad-op") else ({ ds with floor := f }, "ok")
@@ -573,7 +582,7 @@ def execOp (ds : DState) (ws : List String) : DState × String :=
     | none => (ds, "ok -")
     | some rec =>
       let cs := Coins.canon rec.2.2
-      match sendCoins ds.s { quarantineBypass := true } "QH" t cs (some t) with
+      match applyAll ds.s (quarantineAcceptOps "QH" t [cs] []) with
       | .ok s' => ({ ds with s := s', qrecs := ds.qrecs.filter fun r => !(r.1 = t ∧ r.2.1 = f) }, s!"ok {showCoins cs}")
       | .error e => (ds, e.toString)
   | ["spendable", a] =>
